@@ -9,13 +9,18 @@ import oracle
 
 RULE = ("files whose modification times sit on the grid a-1, a, a+1, b-1, b, b+1 around the interval [a, b] of each "
         "literal, at month/year/leap-day boundaries x literals at the four precisions, both `-` and `:` date "
-        "separators, quoted and unquoted x the eight comparison operators x three fixed-offset zones and three zones with daylight-saving rules (POSIX TZ strings; mtimes in both periods); relative "
+        "separators, quoted and unquoted x the eight comparison operators x three fixed-offset zones and three zones with daylight-saving rules (POSIX TZ strings; mtimes in both periods; the 25-hour and the 23-hour day of each zone); relative "
         "literals (today, yesterday, +N/-N) with mtimes set relative to the real clock; (a) CLI rows and the printed "
         "`modified` column vs the Lean model, (b) oracle: Python datetime interval arithmetic. distinct = "
         "(zone, literal, operator); nontrivial = the operator separates the grid")
 
 DATES = [(2024, 2, 29), (2023, 12, 31), (2024, 1, 1), (2023, 2, 28), (2000, 2, 29), (2024, 3, 31), (2021, 6, 15)]
 OPS = ["=", "!=", "<", ">", "<=", ">=", "===", "!==", "eq", "gt", "lte"]
+# the days on which the clocks change in the daylight-saving zones (a 25-hour and a 23-hour day each): a day
+# literal still denotes local 00:00:00 .. 23:59:59 of that calendar day
+DST_DAYS = {"CET-1CEST,M3.5.0,M10.5.0/3": [(2023, 10, 29), (2024, 3, 31)],
+            "EST5EDT,M3.2.0,M11.1.0": [(2023, 11, 5), (2024, 3, 10)],
+            "<+1030>-10:30<+11>-11,M10.1.0,M4.1.0": [(2024, 4, 7), (2023, 10, 1)]}
 
 
 def lit_variants(y, mo, d, r):
@@ -51,6 +56,9 @@ def run(ctx):
             r = ctx.rng.fork()
             tz = zones[rd % len(zones)]
             y, mo, d = DATES[(rd + rd // len(zones)) % len(DATES)]
+            if tz in DST_DAYS and (rd // len(zones)) % 3 != 2:
+                y, mo, d = DST_DAYS[tz][(rd // len(zones)) % 3]
+                ctx.count("clock_change_days")
             lits = lit_variants(y, mo, d, r)
             # grid of local times around every interval edge -> mtimes (UTC seconds)
             ents = []
